@@ -1404,7 +1404,11 @@ class Scene(Geometry3D):
         appended : trimesh.Scene
            Scene with geometry from both scenes
         """
-        result = append_scenes([self, other], common=[self.graph.base_frame])
+        result = append_scenes(
+            [self, other],
+            common=[self.graph.base_frame],
+            base_frame=self.graph.base_frame,
+        )
         return result
 
 
@@ -1533,6 +1537,10 @@ def append_scenes(iterable, common=None, base_frame="world"):
         # remap nodes and edges so duplicates won't
         # stomp all over each other
         map_node = {}
+        if s.graph.base_frame != base_frame:
+            # geometry is placed relative to the base frame of its scene
+            # which corresponds to the base frame of the result
+            map_node[s.graph.base_frame] = base_frame
         # the nodes used in this scene
         current = set()
         for a, b, attr in s.graph.to_edgelist():
